@@ -234,6 +234,19 @@ def w_listing(k: int, n: int) -> Part:
                     part.viol(sig, f"main={main} text={text!r} limit={limit}: {len(got)} of {total} listed; missing {missing[:3]} repeated {dup[:3]}", ["list", main, text, limit], rank=(limit,))
                 part.nontrivial += 1 if pages > 1 else 0
                 part.extra["list_pages_fetched"] = part.extra.get("list_pages_fetched", 0) + pages
+            # a page asked for at any offset (a client that changes the page size between pages, e.g. "the rest" with limit -1)
+            for off in range(0, total + 2):
+                for limit in (-1, 1, 3, total):
+                    part.evaluations += 1
+                    res = run_coro(MT.list_dpts(MY.DptFilter(main=main, text=text, limit=limit, offset=off)))
+                    page = [f"{d.dpt}|{d.value_type}" for d in res.dpts]
+                    ref = want[off:] if limit < 0 else want[off : off + limit]
+                    if page != ref:
+                        part.viol("list-page-at-offset-differs", f"main={main} text={text!r} limit={limit} offset={off}: {len(page)} entries starting {page[:2]}, reference {len(ref)} starting {ref[:2]}",
+                                  ["list-at", main, text, limit, off], rank=(off, abs(limit)))
+                    more = limit >= 0 and off + limit < total
+                    if (res.next_offset is not None) != more or (more and res.next_offset != off + limit):
+                        part.viol("list-next-offset-wrong", f"main={main} text={text!r} limit={limit} offset={off}: next_offset {res.next_offset}, {total} matches", ["list-at", main, text, limit, off], rank=(off, abs(limit)))
             # an offset at / beyond the end
             for off in (total, total + 1):
                 res = run_coro(MT.list_dpts(MY.DptFilter(main=main, text=text, limit=5, offset=off)))
@@ -347,7 +360,7 @@ def run(ctx: Ctx) -> None:
 
 def replay(case: Any) -> list[tuple[str, str]]:
     part = Part()
-    if case and case[0] == "list":
+    if case and case[0] in ("list", "list-at"):
         p = w_listing(0, 1)
         return [(s, v[1]) for s, v in p.viols.items() if v[2][:3] == case[:3] or True]
     if case and case[0] in ("describe", "status", "read", "send-read", "send-write"):
